@@ -2263,7 +2263,7 @@ func (e *c03eng) proveX(g c03goal, at ssa.Instruction, depth int, extra []c03cla
 		if !ok {
 			return c03proof{how: "argument at call site in " + core.FuncKey(s.Parent()) + " not expressible"}
 		}
-		p := e.proveX(sg, s, depth+1, e.dispatchFacts(s, fn))
+		p := e.proveX(sg, s, depth+1, append(e.dispatchFacts(s, fn), e.selectorFacts(s, fn)...))
 		if !p.ok {
 			return c03proof{how: "caller " + core.FuncKey(s.Parent()) + ": " + p.how}
 		}
